@@ -19,12 +19,32 @@ type nslot struct {
 	K string  `json:"k"`
 	V int     `json:"v"`
 	F []nslot `json:"f"`
+	E int     `json:"-"` // how the aggregate is printed when the runtime cut it: 1 "{v, ...}", 2 "{{...}, v}"
 }
 
 type namesCase struct {
 	raw   string
 	D     [][][]nslot `json:"d"`
 	Names []int       `json:"names"`
+	El    bool        `json:"el"`
+}
+
+// markElided gives every aggregate of the case one of the two shapes the runtime prints when it
+// cuts an aggregate short; neither adds or removes a value.
+func markElided(d [][][]nslot) {
+	for _, g := range d {
+		for _, f := range g {
+			for i := range f {
+				if f[i].K == "a" {
+					sum := 0
+					for _, x := range f[i].F {
+						sum += x.V
+					}
+					f[i].E = 1 + sum%2
+				}
+			}
+		}
+	}
 }
 
 // concrete value of a value code: 1..NP pointers ascending (1 is the lowest
@@ -52,7 +72,14 @@ func printSlots(ss []nslot, np int) string {
 	var parts []string
 	for _, s := range ss {
 		if s.K == "a" {
-			parts = append(parts, "{"+printSlots(s.F, np)+"}")
+			switch s.E {
+			case 1:
+				parts = append(parts, "{"+printSlots(s.F, np)+", ...}")
+			case 2:
+				parts = append(parts, "{{...}, "+printSlots(s.F, np)+"}")
+			default:
+				parts = append(parts, "{"+printSlots(s.F, np)+"}")
+			}
 		} else {
 			parts = append(parts, fmt.Sprintf("0x%x", nameValue(s.V, np)))
 		}
@@ -237,6 +264,10 @@ func init() {
 		sortByKey(len(cases), func(i int) string { return cases[i].raw }, func(i, j int) { cases[i], cases[j] = cases[j], cases[i] })
 		for i := range cases {
 			nc := &cases[i]
+			if nc.El {
+				markElided(nc.D)
+				res.count("cases_with_cut_aggregates", 1)
+			}
 			checkNames(res, nc.D, nc.Names, *np, fmt.Sprintf("names case %d", i), nc)
 			nontrivial := false
 			for _, n := range nc.Names {
